@@ -356,7 +356,7 @@ PROPS = {
                 "element of a one- and of a two-element array), by reordering / duplicating a set, by changing each of the five "
                 "proof options or the signature, by deleting the proof, by a second proof next to the genuine one (foreign type / "
                 "altered copy), by an undefined type value; verified with default and with strict validation; "
-                "proof options as array / number / object (with and without a signed value of that option); JWT forms: JWT-VC and JWT-VP signed through the framework with the token text altered (line breaks, flipped characters, spare bits, padding), and an LD-signed presentation inside an unsecured JWT whose iss / jti name another holder / id; " "non-trivial = the alteration found a place in the document",
+                "a member that differs from a signed member only by case (Issuer, Type, IssuanceDate, ID) appended after the signed one, with the accepted credential's own view of id / issuer / date / types compared with the signed document; proof options as array / number / object (with and without a signed value of that option); JWT forms: JWT-VC and JWT-VP signed through the framework with the token text altered (line breaks, flipped characters, spare bits, padding), and an LD-signed presentation inside an unsecured JWT whose iss / jti name another holder / id; " "non-trivial = the alteration found a place in the document",
         "trusted_base": ["JSON-LD expansion and URDNA2015 (json-gold) are replaced by the `claims` reading of the generated "
                          "fragment (partial)", "signature primitives ideal", "compaction law: undefined members are dropped"],
         "assumptions": ["no @list container, no language maps, no @graph in the generated fragment",
